@@ -37,11 +37,8 @@ def src(rel):
 
 
 # trace modes: 2 = opcode, 1 = line
-def trace_files(granularity):
-    """granularity: 'opcode' | 'line' | 'sync'"""
-    if granularity == "sync":
-        return {}
-    eng = 2 if granularity == "opcode" else 1
+def trace_files():
+    eng = 2
     return {
         src("_execution/run_function_on_graph.py"): eng,
         src("_execution/scheduler.py"): eng,
@@ -101,7 +98,7 @@ def install_node_hash(salt):
     g.Node._verif_hash = True
 
 
-def install(sim_time=True):
+def install(sim_time=True, gran="opcode"):
     """Swap in simulated threading / time. Call inside the worker process,
     before Sim.run; undo with uninstall()."""
     import queue
@@ -115,6 +112,10 @@ def install(sim_time=True):
 
     if _INSTALLED:
         raise RuntimeError("shims already installed")
+    from simkit import trace
+
+    trace.install(trace_files())
+    trace.set_granularity(gran)
     prims._COUNTER[0] = 0
     _patch(queue, "threading", prims.THREADING)
     _patch(rfg, "threading", prims.THREADING)
@@ -128,6 +129,9 @@ def install(sim_time=True):
 
 
 def uninstall():
+    from simkit import trace
+
+    trace.set_granularity("sync")
     while _INSTALLED:
         mod, attr, old = _INSTALLED.pop()
         setattr(mod, attr, old)
